@@ -96,6 +96,27 @@ CHECKS = {
              "check (or with verify_ssl=True) is seen; the request that does leave is compared byte for byte.",
         note="Trusted: as C13. Multi-call histories on one client object (redirect hops, caches across calls) are covered by the "
              "Tofu history check (C03)."),
+    "C03": dict(
+        engine="Tofu", design="8 C03, 5.7, Appendix I",
+        text="TLC checks PinRespected, ChangedFails, FirstUsePins, FirstContactPins, FailureKeepsPins, Isolation, "
+             "UnreadableRefused (and NothingToUnverified) over every history of get / upload / redirected get / dropped call / "
+             "Rotate / Trust / Revoke / Clear / ImportMerge / ImportReplace up to 4 (thorough 5) operations over three host:port "
+             "pairs (names differing only in '_' vs '-', one name on two ports), two readable certificates and an unreadable "
+             "one, TOFU on/off; every transition of the 2-operation graph and hundreds of sampled 12-operation behaviours are "
+             "executed on ONE real GeminiClient with a real SQLite pin store against scripted peers; after each step the "
+             "known_hosts table, the result / exception (both fingerprints in the message, no content) and the bytes every peer "
+             "received are compared.",
+        note="Trusted: TLC; scripted peers supply the DER through ssl_object.getpeercert; a DER blob the X.509 parser rejects "
+             "stands for certificates OpenSSL would accept but cryptography cannot read."),
+    "C12": dict(
+        engine="TofuStore", design="8 C12, 5.7, Appendix E", level="fault_enumeration",
+        text="The statement-level TLA+ model of the pin store (committed table / working copy / one action per SQL statement, "
+             "Crash enabled at every boundary) is model-checked for Atomic, SingleCommitPoint, DoneIsAfter, FailureRaises, "
+             "OthersUntouched; every (store, operation) TLC enumerates is then executed on the real TOFUDatabase with a fault at "
+             "every statement boundary (injected sqlite3/OSError; real process kill by fork + _exit), the file reopened, and "
+             "the outcome judged by TLC against After(before, op); export->import round trips for generated host names.",
+        note="Trusted: TLC; SQLite's durability; boundaries = Cursor.execute / Connection.commit entries.",
+        technique="TLA+ spec + TLC model checking; fault enumeration at every SQL statement boundary on the real store, judged by a TLC observation spec"),
 }
 
 ORDER = ["C01", "C02", "C03", "C04", "C05", "C06", "C07", "C08", "C09", "C10", "C11", "C12", "C13", "C14", "C15",
